@@ -3,7 +3,11 @@
    (properties C28 and C03).  One JSON object per line:
 
      RESET       a new scenario (ck = its name, n = its ordinal); several runs are concatenated
-     Call        id, cls (command class), ck (client kind), dis (DisableRetry)
+     Call        id, cls (command class), ck (client kind), dis (DisableRetry), v (shape of the call: "one" | "batch" | "tx"),
+                 val (for batches: "mixed" when retry-safe and other members travel together, else "uniform").  Every member
+                 of a DoMulti is a call of its own here, with its own id and class: it is judged on its own
+     Sync        the client is about to write request id itself on the synchronous path (hook pipe.sync of pipe.syncDo /
+                 syncDoMulti, logged before the write): the next transmission of id is not pipelined
      SRecv       a server received the request id on connection conn   (the n-th SRecv of an id is its n-th transmission)
      SExec       a server executed it
      SRep        a server queued the reply (kind, val) to it
@@ -33,17 +37,25 @@ Known == Ev.id \in DOMAIN calls
 ReplyKinds == Replies \cup LoadingLike \cup Redirects
 \* the policy-relevant class of the previous attempt's outcome.  "pending": the client abandoned a connection on which
 \* the request was still unanswered and the server has not noticed the close yet -- the expiry re-send seen early.
-PrevOf(c) == IF c.last = "pending" THEN "expired-sent" ELSE c.last
+\* A connection the client closes under a request in flight hands errConnExpired to a pipelined request ("expired-sent")
+\* and the I/O error of the closed socket to a request on the synchronous path ("expired-io", a transport error).
+ClosedUnder(c) == IF c.path = "sync" THEN "expired-io" ELSE "expired-sent"
+PrevOf(c) == IF c.last = "pending" THEN ClosedUnder(c) ELSE c.last
 Verdict(what, c, detail) ==
    PrintT(<<"VERDICT", ToJson([scn |-> scn, what |-> what, kind |-> c.ck, class |-> c.cls, disable |-> c.dis,
                                prev |-> PrevOf(c), cause |-> (IF c.culprit # "none" THEN c.culprit ELSE c.cause), verdict |-> c.verdict, sends |-> c.sends, execs |-> c.execs,
-                               detail |-> detail, line |-> l])>>)
+                               shape |-> c.shape, mix |-> c.mix, path |-> c.cpath, detail |-> detail, line |-> l])>>)
 \* (IF, not \/: TLC would evaluate both disjuncts of an action-level disjunction)
 Check(ok, what, c, detail) == IF ok THEN TRUE ELSE Verdict(what, c, detail)
 
 NewCall == [cls |-> Ev.cls, ck |-> Ev.ck, dis |-> Ev.dis, sends |-> 0, execs |-> 0, execNow |-> FALSE,
             conn |-> 0, last |-> "none", lastVal |-> "", verdict |-> "none", cause |-> "none", culprit |-> "none",
-            ctxBegun |-> FALSE, ctxEnded |-> FALSE, broke |-> FALSE, afterEnd |-> 0, ret |-> FALSE]
+            ctxBegun |-> FALSE, ctxEnded |-> FALSE, broke |-> FALSE, afterEnd |-> 0, ret |-> FALSE,
+            shape |-> Ev.v, mix |-> Ev.val,
+            grp |-> IF Ev.v = "one" THEN 0 ELSE Ev.n,   \* members of one DoMulti that are transmitted together
+            repKind |-> "none",                        \* the reply queued to the latest transmission (lastVal: its value)
+            syncNext |-> FALSE, path |-> "none",     \* connection mode of the latest transmission
+            cpath |-> "none"]                        \* ... of the transmission that preceded the first re-send after an execution
 
 Just(c) == [kind |-> c.ck, class |-> c.cls, disable |-> c.dis, prev |-> PrevOf(c), verdict |-> c.verdict,
             ctx |-> c.ctxEnded, closed |-> closed]
@@ -59,15 +71,19 @@ Call == /\ Is("Call") /\ Step /\ calls' = (Ev.id :> NewCall) @@ calls /\ UNCHANG
 
 SRecv == /\ Is("SRecv") /\ Step
          /\ IF ~Known THEN Same
-            ELSE LET c == calls[Ev.id] r == Just(c) IN
+            ELSE LET c == calls[Ev.id] r == Just(c)
+                     cv == [c EXCEPT !.cpath = c.path]       \* (reported with the mode of the transmission that `prev` ended)
+                 IN
                  /\ c.sends >= 1 =>
-                      /\ Check(RetryOnlyWhenSafe(r), "resend-not-permitted pred=RetryOnlyWhenSafe", c, "")
-                      /\ Check(WithinPolicy(r), "resend-not-permitted pred=WithinPolicy", c, "")
-                      /\ Check(NoRetryAfterCtxOrClose(r), "resend-not-permitted pred=NoRetryAfterCtxOrClose", c,
+                      /\ Check(RetryOnlyWhenSafe(r), "resend-not-permitted pred=RetryOnlyWhenSafe", cv, "")
+                      /\ Check(WithinPolicy(r), "resend-not-permitted pred=WithinPolicy", cv, "")
+                      /\ Check(NoRetryAfterCtxOrClose(r), "resend-not-permitted pred=NoRetryAfterCtxOrClose", cv,
                                IF r.closed THEN "closed" ELSE "ctx")
-                      /\ Check(PlainRepliesFinal(r), "resend-not-permitted pred=PlainRepliesFinal", c, "")
-                 /\ Upd(Ev.id, [c EXCEPT !.sends = @ + 1, !.conn = Ev.conn, !.last = "pending", !.lastVal = "",
+                      /\ Check(PlainRepliesFinal(r), "resend-not-permitted pred=PlainRepliesFinal", cv, "")
+                 /\ Upd(Ev.id, [c EXCEPT !.sends = @ + 1, !.conn = Ev.conn, !.last = "pending", !.lastVal = "", !.repKind = "none",
                                          !.verdict = "none", !.execNow = FALSE,
+                                         !.path = IF c.syncNext THEN "sync" ELSE "pipelined", !.syncNext = FALSE,
+                                         !.cpath = IF c.culprit = "none" THEN c.path ELSE c.cpath,
                                          !.cause = IF c.sends >= 1 THEN PrevOf(c) ELSE "none",     \* why this transmission happened
                                          \* the first re-send made although the server had already executed the request
                                          !.culprit = IF c.culprit = "none" /\ c.execs >= 1 THEN PrevOf(c) ELSE c.culprit])
@@ -80,10 +96,12 @@ SExec == /\ Is("SExec") /\ Step
                  /\ UNCHANGED <<scn, closeBegun, closed, anyBreak>>
 SRep == /\ Is("SRep") /\ Step
         /\ IF ~Known THEN Same
-           ELSE /\ Upd(Ev.id, [calls[Ev.id] EXCEPT !.last = Ev.kind, !.lastVal = Ev.val])
+           ELSE /\ Upd(Ev.id, [calls[Ev.id] EXCEPT !.last = Ev.kind, !.lastVal = Ev.val, !.repKind = Ev.kind])
                 /\ UNCHANGED <<scn, closeBegun, closed, anyBreak>>
 \* a connection ended: every unreturned call whose latest transmission went over it has lost that attempt
-BreakOutcome(c) == IF Ev.kind = "clientclose" THEN "expired-sent"
+\* (a connection the client closes after the server has answered the attempt -- the old connection of a standalone client
+\*  that follows a REDIRECT, a connection retired by the sentinel client -- does not change the outcome of that attempt)
+BreakOutcome(c) == IF Ev.kind = "clientclose" THEN (IF c.last = "pending" THEN ClosedUnder(c) ELSE c.last)
                    ELSE IF Ev.kind = "midreply" THEN "cut-mid-reply"
                    ELSE IF c.last = "pending" THEN (IF c.execNow THEN "cut-after-exec" ELSE "cut-before-exec")
                    ELSE "cut-mid-reply"
@@ -98,8 +116,16 @@ Delay == /\ Is("Delay") /\ Step
                      n == IF c.ctxEnded \/ closed THEN c.afterEnd + 1 ELSE c.afterEnd IN
                  \* C28/C05: a done context or a closed client must not keep the wrapper asking for another attempt
                  /\ Check(n < 3, "retry-spin-after-ctx-or-close", c, IF closed THEN "closed" ELSE "ctx")
-                 /\ Upd(Ev.id, [c EXCEPT !.verdict = Ev.v, !.afterEnd = n])
+                 \* the members of a batch that is transmitted as a whole are asked about one after the other until
+                 \* RetryDelay says yes to one of them: that verdict is the verdict of the round, for each member
+                 /\ calls' = [id \in DOMAIN calls |->
+                                IF id = Ev.id THEN [c EXCEPT !.verdict = Ev.v, !.afterEnd = n]
+                                ELSE IF c.grp # 0 /\ calls[id].grp = c.grp THEN [calls[id] EXCEPT !.verdict = Ev.v]
+                                ELSE calls[id]]
                  /\ UNCHANGED <<scn, closeBegun, closed, anyBreak>>
+SyncEv == /\ Is("Sync") /\ Step
+          /\ IF Known THEN Upd(Ev.id, [calls[Ev.id] EXCEPT !.syncNext = TRUE]) ELSE UNCHANGED calls
+          /\ UNCHANGED <<scn, closeBegun, closed, anyBreak>>
 CancelBegin == /\ Is("CancelBegin") /\ Step
                /\ IF Known THEN Upd(Ev.id, [calls[Ev.id] EXCEPT !.ctxBegun = TRUE]) ELSE UNCHANGED calls
                /\ UNCHANGED <<scn, closeBegun, closed, anyBreak>>
@@ -112,7 +138,9 @@ CloseEnd == Is("CloseEnd") /\ Step /\ closed' = TRUE /\ UNCHANGED <<scn, calls, 
 Ret == /\ Is("Ret") /\ Step
        /\ IF ~Known THEN Same
           ELSE LET c == calls[Ev.id] IN
-               /\ Check(CASE Ev.kind \in ReplyKinds -> c.last = Ev.kind /\ c.lastVal = Ev.val
+               \* (the reply of the latest transmission, also when the connection broke after it had been delivered: the
+               \*  first member of a batch whose second reply was cut)
+               /\ Check(CASE Ev.kind \in ReplyKinds -> c.repKind = Ev.kind /\ c.lastVal = Ev.val
                           [] Ev.kind = "ctx"     -> c.ctxBegun
                           \* ErrClosing also reaches callers whose connection the client itself replaced (sentinel
                           \* switch-over, expired or redirected connections), not only after Close()
@@ -126,11 +154,11 @@ Hang == /\ Is("Hang") /\ Step
         /\ IF Known THEN Check(FALSE, "call-did-not-return", calls[Ev.id], "") ELSE TRUE
         /\ Same
 Other == /\ l <= Len(TraceLog)
-         /\ Ev.ev \notin {"RESET", "Call", "SRecv", "SExec", "SRep", "SBreak", "Delay", "CancelBegin", "CancelEnd",
+         /\ Ev.ev \notin {"RESET", "Call", "SRecv", "SExec", "SRep", "SBreak", "Delay", "Sync", "CancelBegin", "CancelEnd",
                           "CloseBegin", "CloseEnd", "Ret", "Hang"}       \* (SRepHeld: not an outcome the client can know)
          /\ Step /\ Same
 
-TraceNext == Reset \/ Call \/ SRecv \/ SExec \/ SRep \/ SBreak \/ Delay \/ CancelBegin \/ CancelEnd \/ CloseBegin \/ CloseEnd
+TraceNext == Reset \/ Call \/ SRecv \/ SExec \/ SRep \/ SBreak \/ Delay \/ SyncEv \/ CancelBegin \/ CancelEnd \/ CloseBegin \/ CloseEnd
              \/ Ret \/ Hang \/ Other
 TraceSpec == TraceInit /\ [][TraceNext]_tvars
 
